@@ -194,7 +194,13 @@ def r5_continuation(ctx, rep):
     rep.ob("pieces accumulate in linebuffer", ok, "", py.nloc(fn), nontrivial=False)
 
 
+def r6_masking_cursor(ctx, rep):
+    from . import c20
+    c20.r4_cursor_progress(ctx, rep)
+
+
 RULES = [
+    RuleSpec("C02.R6", r6_masking_cursor, "masking loops advance past the placeholder (shared with C20.R4)", floor=4),
     RuleSpec("C02.R1", r1_comment_recogniser, "comment recogniser == Fortran comment rule", floor=12),
     RuleSpec("C02.R2", r2_literal_recogniser, "literal recogniser", floor=2),
     RuleSpec("C02.R3", r3_scanners, "character scanners == reference automaton", floor=3),
